@@ -132,6 +132,14 @@ def main(argv=None):
     except Exception as ex:
         print(f"ENGINE-ERROR property={pid} cannot load contracts: {type(ex).__name__}: {ex}")
         traceback.print_exc()
+        # a contract file that reads the repository's AST while it is built can fail on an edited source: no proof and no refutation; the native harness
+        # is still asked for a failing input on the real code (bounded stand-in)
+        pseudo = dict(task="bounded-search", func="<whole property>", name="bounded-native-search", line=0, verdict="engine-error", model=None)
+        r = run_replayer(pid, None, [pseudo], seed, tier).get(obligation_key(pseudo))
+        if r and r.get("found"):
+            print(f"VIOLATION property={pid} replay={r['replay']}")
+            print("  found by the native witness search (bounded) while the contracts could not be loaded")
+            return 1
         return 3
     tasks = list(range(len(P.tasks)))
     if args.only:
